@@ -61,6 +61,8 @@ func run(repo, prop, tier string, seed int, out, known, cg, arg string) (code in
 		return 0
 	case "taint":
 		return debugTaint(p, arg)
+	case "range":
+		return debugRange(p, arg)
 	case "dump":
 		return debugDump(p, arg)
 	}
